@@ -323,9 +323,10 @@ def check_one(acc, env, nmac, config, placement, iname, plain, mode, fn, shadow_
     d = snap_diff(before, after)
     if d:
         what = "positions-filled-in" if "attributes {}" in d and "_start_line" in d else "other"
+        node = "sequence" if any(t in d for t in ("(Expression)", "(List)")) else "atom"
         acc.disagree("input-mutated", case,
                      f"{fn} of {to_text(plain)} (input built: {mode}) changed its input: {d}",
-                     sig=f"mutated:{what}:{mode}", fn=fn, mode=mode, input=head, first=first, what=what)
+                     sig=f"mutated:{what}:{node}:{mode}", fn=fn, mode=mode, input=head, first=first, what=what, node=node)
     if dict(M._hy_macros) != table_before:
         acc.disagree("macro-table-changed", case, f"module._hy_macros keys now {sorted(M._hy_macros)}", sig="table-changed:" + fn, fn=fn)
     if outcome in ("no-macro", "core-result") and got is inp:
